@@ -160,6 +160,8 @@ func runC06(c *ShardCtx) {
 				)
 			}
 		}
+		savedInputs := inputs
+		inputs = peg.Inputs([]string{"a", "b"}, 5) // two growth rounds through the non-leader need 5 bytes
 		for _, g := range lrs {
 			if c.Expired("F4") {
 				return
@@ -172,6 +174,7 @@ func runC06(c *ShardCtx) {
 			}
 			run(g, nil)
 		}
+		inputs = savedInputs
 	}
 	gen, leaders = core.Gen{}, nil
 	// F1
